@@ -25,7 +25,7 @@ EXPLANATION = (
     "last parsing stage that replaces X on every path - otherwise the checks are driven by the un-parsed columns. NOT decided: that the output re-validates (a fixpoint property over values)."
 )
 LEVEL_RULE = "one obligation per stage call / return in the validate methods and parser pipelines"
-FLOORS = {"R1": 30, "R2": 12, "R3": 2}
+FLOORS = {"R1": 30, "R2": 12, "R3": 2, "R4": 2, "R5": 1}
 
 STAGES = {"validate", "_validate", "coerce_dtype", "set_default", "set_defaults", "add_missing_columns",
           "strict_filter_columns", "run_parsers", "drop_invalid_rows", "preprocess", "lazy", "collect", "add_schema",
@@ -276,7 +276,88 @@ def r3_snapshot_freshness(ctx, f):
     return n
 
 
+def r4_filter_set(ctx):
+    """strict='filter' removes exactly the columns of the incoming frame that the schema does not declare: the dropped
+    labels are an accumulator filled, while ranging over column_info.destuttered_column_names (the frame's columns when
+    column_info was taken), under `strict == 'filter' and column not in column_info.expanded_column_names`.  Computing
+    the set from the *current* frame against the pre-parse column_info drops the columns add_missing_columns just added."""
+    from ..util import path_condition, show_condition
+    from .c08 import PDC, PLC, _twin_view
+    for q in (PDC, PLC):
+        cls = ctx.ix.cls(q)
+        f = cls.lookup("strict_filter_columns")
+        if f is None:
+            raise AnalysisError(f"{q}.strict_filter_columns missing")
+        ctx.touched(f)
+        fx = _twin_view(f)
+        drops = [c for c in calls_in(f.node) if callee_last(c) == "drop" and isinstance(c.func, ast.Attribute)]
+        if not drops:
+            ctx.ob("R4", f, f"{f.short}: undeclared columns are dropped under strict='filter'", False, "no drop(...) call: strict='filter' keeps undeclared columns")
+            continue
+        flavour = "polars" if "/polars/" in q else "pandas"
+        for c in drops:
+            arg = kw(c, "labels") or kw(c, "columns") or (c.args[0] if c.args else None)
+            e = fx.expand(arg) if arg is not None else None
+            acc = isinstance(e, ast.Name) and e.id.startswith("ACC_")
+            if not acc:
+                ctx.ob("R4", f, f"{flavour} strict_filter_columns: dropped labels are collected from the incoming frame's columns", False,
+                       f"`{txt(c)[:80]}` drops `{txt(e)[:80] if e is not None else None}`, which is not the list collected while ranging over "
+                       "column_info.destuttered_column_names: columns that a preceding parser (add_missing_columns) added are not in the "
+                       "pre-parse column_info and get dropped again, so the returned frame lacks declared columns", f.loc(c))
+                continue
+            name = next(k for k, v in fx.acc.items() if v == e.id)
+            sites = [s for s in function_stmts(f) if isinstance(s, ast.Expr) and isinstance(s.value, ast.Call) and callee_last(s.value) in ("append", "extend")
+                     and txt(s.value.func.value) == name]
+            ok = bool(sites)
+            why = []
+            for s in sites:
+                el = fx.expand(s.value.args[0]) if s.value.args else None
+                el_ok = el is not None and txt(el).startswith("ELEM_INFO_destuttered_column_names")
+                pc = path_condition(fx.cfg, fx.cfg.node_of(s).id, expand=fx,
+                                    keep=lambda t, n: ("strict" in t and "filter" in t) or "expanded_column_names" in t)
+                d = dict(zip(pc[0], next(iter(pc[1])))) if len(pc[1]) == 1 else {}
+                flt = [k for k in d if "filter" in k]
+                mem = [k for k in d if "expanded_column_names" in k]
+                c_ok = len(d) == 2 and len(flt) == 1 and len(mem) == 1 and d[flt[0]] is True and d[mem[0]] is False
+                ok = ok and el_ok and c_ok
+                why.append(f"appends `{txt(el) if el is not None else None}` under {show_condition(pc)}")
+            ctx.ob("R4", f, f"{flavour} strict_filter_columns: dropped labels are collected from the incoming frame's columns", ok,
+                   "; ".join(why) if why else "the dropped list is never filled", f.loc(c))
+
+
+def r5_container_defaults(ctx):
+    """polars: the container fills the default of every column schema that declares one.  The component validation fills
+    defaults on its own throw-away copy before checking, so a column the container skips passes its checks while the
+    returned frame still holds the nulls."""
+    from ..flow import FlowExpander
+    from ..util import path_condition, show_condition
+    from .c08 import PLC
+    cls = ctx.ix.cls(PLC)
+    f = cls.lookup("set_default")
+    if f is None:
+        raise AnalysisError("polars container set_default missing")
+    ctx.touched(f)
+    fx = FlowExpander(f.node, {p: ("SCHEMA" if "schema" in p else "DATA") for p in f.positional[1:]})
+    calls = [c for c in calls_in(f.node) if callee_last(c) == "set_default" and isinstance(c.func, ast.Attribute)]
+    if not calls:
+        ctx.ob("R5", f, "polars container applies the component defaults", False, "no component set_default call")
+        return
+    for c in calls:
+        from ..util import enclosing_stmt
+        st = enclosing_stmt(c)
+        pc = path_condition(fx.cfg, fx.cfg.node_of(st).id, expand=fx)
+        import re as _re
+        extra = [a for a in pc[0] if "default" not in _re.sub(r"\b(ELEM|KEY|ACC)_\w+", "E", a)]
+        ctx.ob("R5", f, "polars container fills the default of every column that declares one", not extra,
+               f"applied under {show_condition(pc)}" if not extra else
+               f"the default is applied only under {show_condition(pc)}: the extra condition(s) {extra} skip columns (e.g. regex-named ones, whose "
+               "name is a pattern) that the component validation still fills on its private copy - checks pass, the returned frame keeps the nulls",
+               f.loc(c))
+
+
 def run(ctx):
+    r4_filter_set(ctx)
+    r5_container_defaults(ctx)
     ix = ctx.ix
     total = 0
     for bc in schema_backend_classes(ix):
